@@ -365,6 +365,10 @@ func scalarReflectFromGo(schema *schema_j5pb.Field, value interface{}) (protoref
 
 	case *schema_j5pb.Field_Decimal:
 		switch val := value.(type) {
+		case json.Number:
+			// like every number type, a decimal may be given unquoted
+			return decimalFromString(string(val))
+
 		case string:
 			return decimalFromString(val)
 
